@@ -59,6 +59,7 @@ var redirects = map[string]map[string]redirect{
 	"golang.org/x/sys/unix": {"Stat": {"UnixStat", ""}},
 	"math/rand": {"Seed": {"RandSeed", ""}, "Read": {"RandRead", ""}, "Int31n": {"RandInt31n", ""}},
 	"time":      {"Sleep": {"Sleep", ""}, "Now": {"WallNow", "internal/fs/"}},
+	"net":       {"Listen": {"Listen", "pkg/api/"}},
 }
 
 type rewriter struct {
